@@ -96,7 +96,8 @@ Record lview := mkview {
   v_quote : bool;                                  (* a triple-quote token occurs in the line *)
   v_empty : bool;                                  (* _is_empty *)
   v_iscomment : bool;                              (* _is_comment *)
-  v_comment : string;                              (* text after the first '#', stripped; empty without '#' *)
+  v_comment : string;                              (* _get_comment_at_line: text after the first '#', stripped; empty without '#' *)
+  v_inline : string;                               (* _get_inline_comment_at_line: text after the first '#' OUTSIDE a string literal *)
   v_open : option (quote * bool * string);         (* first line of a docstring: token, closed on this line?, text *)
   v_closeD : option string;                        (* triple-double token in line: text before it, stripped *)
   v_closeS : option string;
@@ -105,9 +106,37 @@ Record lview := mkview {
 Definition v_close (q : quote) (v : lview) : option string :=
   match q with QD => v_closeD v | QS => v_closeS v end.
 
+(* ---------- _split_at_comment: one pass over the characters with the state (quote, skip) ---------- *)
+(* what the loop body does with one character; the decision chain itself is regenerated from the source
+   (Gen/FactsDoc.v split_step_gen) *)
+Inductive sstep :=
+| SReturn                       (* return line[:i], line[i + 1:] *)
+| SSkipNext                     (* i += 1: the next character is not looked at *)
+| SQuote (q : option ascii)     (* quote = ... *)
+| SKeep.                        (* nothing but the final i += 1 *)
+
+Definition pre_char (c : ascii) (o : option (string * string)) : option (string * string) :=
+  match o with Some (a, b) => Some (String c a, b) | None => None end.
+
+(* Some (code, comment) | None = the line has no comment *)
+Fixpoint split_run (step : option ascii -> ascii -> sstep) (s : string) (quote : option ascii) (skip : bool)
+  : option (string * string) :=
+  match s with
+  | EmptyString => None
+  | String c r =>
+      if skip then pre_char c (split_run step r quote false)
+      else match step quote c with
+           | SReturn => Some (EmptyString, r)
+           | SSkipNext => pre_char c (split_run step r quote true)
+           | SQuote q => pre_char c (split_run step r q false)
+           | SKeep => pre_char c (split_run step r quote false)
+           end
+  end.
+
 Section Scanner.
   Variables HASH COLON EQUALS : ascii.             (* Gen: the literals of _contains_field_definition & co *)
   Variables TRIPLE_S TRIPLE_D : string.            (* Gen: triple_single / triple_double *)
+  Variable SPLIT_STEP : option ascii -> ascii -> sstep.   (* Gen: the loop body of _split_at_comment *)
 
   (* _contains_field_definition *)
   Definition contains_def (line0 : string) : bool :=
@@ -127,9 +156,13 @@ Section Scanner.
     let attribute := strip (before_char COLON line) in
     if is_ident attribute then Some attribute else None.
 
-  (* _get_comment_at_line / _get_inline_comment_at_line *)
+  (* _get_comment_at_line (comment lines above a field): the first # whatever surrounds it *)
   Definition comment_of (line : string) : string :=
     match after_char HASH line with Some c => strip c | None => "" end.
+
+  (* _get_inline_comment_at_line *)
+  Definition inline_of (line : string) : string :=
+    match split_run SPLIT_STEP line None false with Some (_, c) => strip c | None => "" end.
 
   Definition tok_of (q : quote) : string := match q with QD => TRIPLE_D | QS => TRIPLE_S end.
 
@@ -163,7 +196,7 @@ Section Scanner.
            (contains TRIPLE_D line || contains TRIPLE_S line)
            (String.eqb (strip line) "")
            (prefixb (String HASH "") (strip line))
-           (comment_of line)
+           (comment_of line) (inline_of line)
            (open_of line) (close_of QD line) (close_of QS line) (strip line).
 End Scanner.
 
@@ -214,7 +247,7 @@ Definition defines (f : string) (v : lview) : bool :=
 Fixpoint find_field (stop_other : bool) (f : string) (above_rev vs : list lview) : option (string * string * string) :=
   match vs with
   | [] => None
-  | v :: r => if defines f v then Some (comment_above stop_other above_rev, v_comment v, doc_open r)
+  | v :: r => if defines f v then Some (comment_above stop_other above_rev, v_inline v, doc_open r)
               else find_field stop_other f (v :: above_rev) r
   end.
 
@@ -249,6 +282,7 @@ Fixpoint last_assoc (f : string) (l : list (string * string)) (cur : string) : s
 Section Class.
   Variables HASH COLON EQUALS : ascii.
   Variables TRIPLE_S TRIPLE_D : string.
+  Variable SPLIT_STEP : option ascii -> ascii -> sstep.
   Variable STOP_OTHER : bool.     (* Gen FIX_WALK: the comment walk stops at code lines *)
   Variable ENTRY_ALONE : bool.    (* Gen FIX_ENTRY: a class that only documents the field in its docstring still answers *)
 
@@ -267,7 +301,7 @@ Section Class.
     end.
 
   Definition scan_lines (lines : list string) (f : string) : option (string * string * string) :=
-    find_field STOP_OTHER f [] (map (view HASH COLON EQUALS TRIPLE_S TRIPLE_D) lines).
+    find_field STOP_OTHER f [] (map (view HASH COLON EQUALS TRIPLE_S TRIPLE_D SPLIT_STEP) lines).
 
   (* _get_attribute_docstring(cls, f) *)
   Definition scan_class (k : klass) (f : string) : option parts :=
